@@ -19,7 +19,6 @@ import ast
 import itertools
 
 from .. import sym, uflmodel, uflsem
-from ..flow import guards_at, must_pass
 from ..lift import Interp, LiftRaise, Obj, Unsupported
 from ..model import AnalysisError, norm
 from ..report import Report
